@@ -4,7 +4,7 @@
    Key objects: v2/v4 secret = 32-byte seed (the expanded key is a function of it), public = 32 bytes;
    v3 secret = 48-byte big-endian scalar, public = 49-byte compressed point; v1 keys = DER strings. *)
 From Coq Require Import List NArith String Bool.
-From PV Require Import Bytes Result Pae Oracle Local.
+From PV Require Import Bytes Result Rs Pae Oracle Local.
 Import ListNotations.
 Local Open Scope string_scope.
 Local Open Scope list_scope.
@@ -21,11 +21,13 @@ Section WithOracle.
   Definition v4_public_seal (seed enc payload f a : bytes) : result bytes :=
     Ok (payload ++ ed_sign O seed (v4_ppre enc payload f a)).
 
+  (* `if len < 64 { return Err(InvalidToken) }`, `payload.split_at(len - 64)`, `tag.try_into().unwrap()` *)
   Definition v4_public_unseal (pk enc payload f a : bytes) : result bytes :=
     if Nat.ltb (length payload) 64 then Err InvalidToken else
-    let m := take (length payload - 64) payload in
-    let sig := drop (length payload - 64) payload in
-    if ed_verify O pk (v4_ppre enc m f a) sig then Ok m else Err CryptoError.
+    rs_sub (length payload) 64 "paseto-v4/public.rs unseal: len - 64" (fun mid =>
+    rs_split_at mid payload "paseto-v4/public.rs unseal: split_at(len - 64)" (fun m tag =>
+    rs_exact 64 tag "paseto-v4/public.rs unseal: tag.try_into().unwrap()" (fun sig =>
+    if ed_verify O pk (v4_ppre enc m f a) sig then Ok m else Err CryptoError))).
 
   Definition v2_public_seal (seed enc payload f a : bytes) : result bytes :=
     if negb (isnil a) then Err ClaimsError else
@@ -34,9 +36,10 @@ Section WithOracle.
   Definition v2_public_unseal (pk enc payload f a : bytes) : result bytes :=
     if negb (isnil a) then Err ClaimsError else
     if Nat.ltb (length payload) 64 then Err InvalidToken else
-    let m := take (length payload - 64) payload in
-    let sig := drop (length payload - 64) payload in
-    if ed_verify O pk (v2_ppre enc m f) sig then Ok m else Err CryptoError.
+    rs_sub (length payload) 64 "paseto-v2/public.rs unseal: len - 64" (fun mid =>
+    rs_split_at mid payload "paseto-v2/public.rs unseal: split_at(len - 64)" (fun m tag =>
+    rs_exact 64 tag "paseto-v2/public.rs unseal: tag.try_into().unwrap()" (fun sig =>
+    if ed_verify O pk (v2_ppre enc m f) sig then Ok m else Err CryptoError))).
 
   (* ------------------------------------------------------------------ v4 (libsodium) *)
   Definition na_public_seal (seed enc payload f a : bytes) : result bytes :=
@@ -86,12 +89,12 @@ Section WithOracle.
 
   Definition lc_public_unseal (pk enc payload f a : bytes) : result bytes :=
     if Nat.ltb (length payload) 96 then Err InvalidToken else
-    let m := take (length payload - 96) payload in
-    let sig := drop (length payload - 96) payload in
+    rs_sub (length payload) 96 "paseto-v3-aws-lc/public.rs unseal: len - 96" (fun mid =>
+    rs_split_at mid payload "paseto-v3-aws-lc/public.rs unseal: split_at(len - 96)" (fun m sig =>
     let r := be_val (take 48 sig) in
     let s := be_val (drop 48 sig) in
     (* ECDSA_verify rejects r, s outside [1, n-1] itself *)
-    if scalar_ok r && scalar_ok s && ecdsa_verify O pk (v3_ppre pk enc m f a) r s then Ok m else Err CryptoError.
+    if scalar_ok r && scalar_ok s && ecdsa_verify O pk (v3_ppre pk enc m f a) r s then Ok m else Err CryptoError)).
 
   (* ------------------------------------------------------------------ v1 (rsa) *)
   Definition v1_ppre (enc m f : bytes) : bytes := pae [public_hdr (str "v1") enc; [m]; [f]].
